@@ -166,21 +166,15 @@ pub extern "C" fn cs_r_load_rt() {
     merge();
 }
 
-/// thread 1 gives back the 8 parked guards (after its body loaded through the fallback)
+/// one load on the fallback path (the prologue parked 8 guards, which stay parked)
 #[no_mangle]
-pub extern "C" fn cs_r_fallback_then_release() {
+pub extern "C" fn cs_r_fallback() {
     let g = a().load();
     merge();
     check_payload(&g, 1);
+    cover(14);
     drop(g);
     merge();
-    for i in 0..8 {
-        if let Some(h) = cx().held1[i].take() {
-            check_payload(&h, 10);
-            drop(h);
-        }
-        merge();
-    }
 }
 
 /// guard promoted to a full handle that outlives everything
@@ -291,6 +285,23 @@ pub extern "C" fn cs_final1() {
     expect_counts(i, usize::MAX);
     vassert(slots_all_empty(), 42);
     cover(13);
+}
+
+/// the parked guards of thread 1 are given back by the final function (any thread may do that),
+/// then the usual accounting
+#[no_mangle]
+pub extern "C" fn cs_final1_release() {
+    for i in 0..8 {
+        if let Some(h) = cx().held1[i].take() {
+            check_payload(&h, 44);
+            drop(h);
+        }
+        if let Some(h) = cx().held2[i].take() {
+            check_payload(&h, 45);
+            drop(h);
+        }
+    }
+    cs_final1();
 }
 
 /// two containers
